@@ -44,10 +44,11 @@ structure Cfg where
   pmbrClamp : Bool       -- gpt-pmbr-size-truncated: protective MBR size clamped to 0xFFFFFFFF
   minDiskCheck : Bool    -- gpt-no-min-disk-size: Write refuses a disk that cannot hold both copies
   arrayBounded : Bool    -- gpt-array-size-unbounded: loadEntries checks the array against the device
+  pmbrLast : Bool        -- gpt-first-write-pmbr-window: the protective MBR is written after both GPT copies
 deriving Repr, DecidableEq
 
-def Cfg.asFound : Cfg := ⟨false, false, false, false⟩
-def Cfg.fixed : Cfg := ⟨true, true, true, true⟩
+def Cfg.asFound : Cfg := ⟨false, false, false, false, false⟩
+def Cfg.fixed : Cfg := ⟨true, true, true, true, true⟩
 
 /-! ### Go integers -/
 
@@ -269,9 +270,9 @@ def write (c : Cfg) (crc : Bytes → Nat) (t0 : Table) (size : Nat) : Res (List 
     let pHdrOff := sb
     let sHdrOff := toI64 (toI64 t.secondaryHeader * sb)
     if sArrOff < 0 ∨ sHdrOff < 0 ∨ pArrOff < 0 then .err false else
-    let ws := (if t.pmbr then [Wr.mk 446 (pmbrEnc c t)] else [])
-      ++ [⟨sArrOff.toNat, arr⟩, ⟨sHdrOff.toNat, bh⟩, ⟨pArrOff.toNat, arr⟩, ⟨pHdrOff.toNat, ph⟩]
-    .ok (ws, { t with parts := ps })
+    let pm := if t.pmbr then [Wr.mk 446 (pmbrEnc c t)] else []
+    let core : List Wr := [⟨sArrOff.toNat, arr⟩, ⟨sHdrOff.toNat, bh⟩, ⟨pArrOff.toNat, arr⟩, ⟨pHdrOff.toNat, ph⟩]
+    .ok (if c.pmbrLast then core ++ pm else pm ++ core, { t with parts := ps })
 
 /-! ### reading -/
 
